@@ -394,7 +394,7 @@ def run(tier, v):
     sig_path = os.path.join(d, "aggsig.ndjson")
     agg_path = os.path.join(d, "agg.ndjson")
     nsig = 500 if thorough else 16
-    nruns, neng, ncan, nstress, nprov, nother, nstaged, nfault = (5000, 300, 1500, 40, 700, 400, 400, 1200) if thorough else (300, 24, 40, 4, 24, 30, 20, 80)
+    nruns, neng, ncan, nstress, nprov, nother, nstaged, nfault = (5000, 300, 1500, 40, 700, 400, 400, 1200) if thorough else (300, 24, 40, 6, 24, 30, 20, 80)
 
     # everything that does not depend on something else runs at the same time: the design-level TLC runs, the
     # process-level driver (mostly waiting), the in-process driver + its two trace validations, the format cases,
